@@ -1192,6 +1192,11 @@ class Interp:
                         return PFALSE  # nothing is a member of an empty collection
                     if isinstance(item, Const) and all(isinstance(x, Const) for x in o.values()):
                         return PFALSE
+
+                    def _const_tuple(x):
+                        return isinstance(x, Const) or (isinstance(x, TupleV) and all(_const_tuple(y) for y in x.items))
+                    if _const_tuple(item) and all(_const_tuple(x) for x in o.values()):
+                        return PFALSE  # (tuples of constants: equal only when their descriptions are)
                     if len(ds) == 1 and isinstance(item, ElemV) and isinstance(o.values()[0], ElemV):
                         # membership in a one-element collection is equality with that element
                         return self.compare_pos("Eq", item, o.values()[0], node)
